@@ -320,6 +320,33 @@ func PeerSendMSG(conn *uacp.Conn, channelID, tokenID uint32, seq *uint32, reqID 
 	return nil
 }
 
+// PeerChunksMSG encodes one unsecured MSG message into its chunks; the sequence numbers are filled in by
+// PeerWriteChunk when a chunk is actually written, so that chunks of several messages can be interleaved.
+func PeerChunksMSG(channelID, tokenID, reqID uint32, svc interface{}, maxBody uint32) ([][]byte, error) {
+	typeID := ua.ServiceTypeID(svc)
+	if typeID == 0 {
+		return nil, fmt.Errorf("peer: unknown service %T", svc)
+	}
+	m := &uasc.Message{
+		MessageHeader: &uasc.MessageHeader{
+			Header:                  uasc.NewHeader(uasc.MessageTypeMessage, uasc.ChunkTypeFinal, channelID),
+			SymmetricSecurityHeader: uasc.NewSymmetricSecurityHeader(tokenID),
+			SequenceHeader:          uasc.NewSequenceHeader(0, reqID),
+		},
+		TypeID:  ua.NewFourByteExpandedNodeID(0, typeID),
+		Service: svc,
+	}
+	return m.EncodeChunks(maxBody)
+}
+
+// PeerWriteChunk numbers a chunk of PeerChunksMSG and writes it.
+func PeerWriteChunk(conn *uacp.Conn, ch []byte, seq *uint32) error {
+	*seq++
+	ch[16], ch[17], ch[18], ch[19] = byte(*seq), byte(*seq>>8), byte(*seq>>16), byte(*seq>>24)
+	_, err := conn.Write(ch)
+	return err
+}
+
 // PeerSendOPNResponse writes an unsecured OpenSecureChannelResponse.
 func PeerSendOPNResponse(conn *uacp.Conn, channelID, newTokenID uint32, seq *uint32, reqID uint32, lifetimeMs uint32) error {
 	*seq++
